@@ -19,6 +19,39 @@ def structural(sm, exc: str) -> bool:
     return any(exc_is_subclass(sm, exc, b) for b in STRUCTURAL_BASES) or exc in ('NotImplementedError',)
 
 
+def _escapes_with_flag_off(sm, cg, ef, caller, node, ed, depth=0):
+    """Structural exception classes that the call `ed` can let escape while self.xsd_check is false.  A private helper called on
+    self shares the element (and its flag): it is examined under the same assumption instead of by its flag-insensitive summary."""
+    callee = ed.callee
+    is_self_helper = (callee.cls is not None and callee.cls.is_subclass_of('XMLElement') and callee.name.startswith('_') and not callee.name.startswith('__')
+                      and isinstance(node, ast.Call) and isinstance(node.func, ast.Attribute) and unparse(node.func.value) == 'self' and depth < 3)
+    out = []
+    if not is_self_helper:
+        for exc in ef.summary_raises.get(callee, {}):
+            if structural(sm, exc) and not ef.caught(caller, node, exc):
+                out.append(exc)
+        return out
+    g = cfg_of(callee.node)
+    reach = g.reachable(g.entry, edge_ok=g.edge_filter_assuming(UNCHECKED))
+    for n in reach:
+        if n.kind == 'stmt' and isinstance(n.ast, ast.Raise):
+            for exc in ef._raise_class(callee, n.ast):
+                if structural(sm, exc) and not ef.caught(callee, n.ast, exc):
+                    out.append(exc)
+        for e in n.exprs():
+            for sub in walk_local(e):
+                for ed2 in cg.by_node.get(sub, []):
+                    if ed2.caller.node is not callee.node:
+                        continue
+                    if ed2.callee.cls is not None and ed2.callee.cls.name == 'XMLElement' and ed2.callee.name == '_final_checks' and callee.name != '_final_checks' \
+                            and not (isinstance(sub, ast.Call) and isinstance(sub.func, ast.Attribute) and unparse(sub.func.value) == 'self'):
+                        continue
+                    for exc in _escapes_with_flag_off(sm, cg, ef, callee, sub, ed2, depth + 1):
+                        if not ef.caught(callee, sub, exc):
+                            out.append(exc)
+    return [x for x in out if not ef.caught(caller, node, x)]
+
+
 def run(ctx):
     sm, res = ctx.sm, ctx.res
     cg = get_cg(ctx)
@@ -39,9 +72,13 @@ def run(ctx):
         reach_on = g.reachable(g.entry, edge_ok=on)
         # is the flag consulted at all?
         tests = [n for n in g.stmt_nodes() if n.kind == 'test' and ('xsd_check' in unparse(n.ast))]
-        if f.name != 'to_string' or True:
-            res.check(bool(tests), 'R-DOM.guard', f.fq, "the operation branches on the element's own xsd_check",
-                      key=f"R-DOM.guard|no-test|{f.name}")
+        helper_tests = False
+        if not tests:
+            for ed in cg.out.get(f, []):
+                if ed.callee.cls is not None and ed.callee.cls.name == 'XMLElement' and ed.callee.name.startswith('_') and 'xsd_check' in unparse(ed.callee.node):
+                    helper_tests = True
+        res.check(bool(tests) or helper_tests, 'R-DOM.guard', f.fq, "the operation branches on the element's own xsd_check (itself or in a private helper)",
+                  key=f"R-DOM.guard|no-test|{f.name}")
         for t in tests:
             ok = all(x in ('self.xsd_check', 'self._xsd_check') for x in
                      [unparse(a) for a in ast.walk(t.ast) if isinstance(a, ast.Attribute) and a.attr in ('xsd_check', '_xsd_check')])
@@ -61,9 +98,8 @@ def run(ctx):
                         # their own flag) is the per-element rule's business
                         if ed.callee.cls is not None and ed.callee.cls.name == 'XMLElement' and ed.callee.name == '_final_checks':
                             continue
-                        for exc in ef.summary_raises.get(ed.callee, {}):
-                            if structural(sm, exc) and not ef.caught(f, sub, exc):
-                                bad_calls.append((n, sub, ed.callee.qualname, exc))
+                        for exc in _escapes_with_flag_off(sm, cg, ef, f, sub, ed):
+                            bad_calls.append((n, sub, ed.callee.qualname, exc))
             if n.kind == 'stmt' and isinstance(n.ast, ast.Raise):
                 for exc in ef._raise_class(f, n.ast):
                     if structural(sm, exc):
@@ -92,9 +128,14 @@ def run(ctx):
         n_guarded += sum(1 for n in reach_on - reach_off if n.kind not in ('entry', 'exit', 'raise'))
         # what the flag must NOT switch off: the shared bookkeeping (done under both settings)
         if f.name == 'add_child':
-            for want in ('self._unordered_children.append(child)', 'child._parent = self'):
-                nodes = [n for n in g.stmt_nodes() if n.kind == 'stmt' and unparse(n.ast) == want]
-                ok = bool(nodes) and all(n in reach_off and n in reach_on for n in nodes)
+            from ..rules.mustfx import MustFx
+            child = ('param', 1)
+            for want, pred in (('self._unordered_children.append(child)', lambda l: l == ('write', 'self', '_unordered_children', 'append', child)),
+                               ('child._parent = self', lambda l: l == ('write', child, '_parent', 'store', 'self'))):
+                ok = True
+                for mode, assume in (('checked', CHECKED), ('unchecked', UNCHECKED)):
+                    mx = ctx.lazy(f"mustfx-{mode}", lambda a=assume: MustFx(cg, a))
+                    ok = ok and mx.performed_on_every_path(f, pred, assume)
                 res.check(ok, 'R-DOM.guard', f.fq, f"`{want}` happens with the flag on and off", key=f"R-DOM.guard|shared|add_child|{want}")
         if f.name == 'get_children':
             rets = [n for n in reach_off if n.kind == 'return']
@@ -135,10 +176,14 @@ def run(ctx):
                 res.check(bool(hits) and all(n in reach_on and n not in reach_off for n in hits), 'R-DOM.per-element', f.fq,
                           f"{want} runs exactly when the element's own flag is on", key=f"R-DOM.per-element|{want}")
         if f.name == 'to_string':
-            fc = [n for n in g.stmt_nodes() if any(isinstance(s, ast.Call) and unparse(s.func) == 'self._final_checks'
-                                                    for e in n.exprs() for s in walk_local(e))]
-            res.check(bool(fc) and all(n in reach_on and n not in reach_off for n in fc), 'R-DOM.per-element', f.fq,
-                      "to_string() validates exactly when the element's own flag is on", key='R-DOM.per-element|to_string')
+            from ..rules.mustfx import MustFx
+            from ..rules import dom as _dom
+            mx = ctx.lazy('mustfx-checked', lambda: MustFx(cg, CHECKED))
+            on_ok = mx.performed_on_every_path(f, lambda l: l[0] == 'call' and l[1] == 'XMLElement._final_checks' and l[2] == 'self', CHECKED)
+            off_ok = not _dom.may_call(cg, f, 'XMLElement._final_checks', UNCHECKED)
+            res.check(on_ok and off_ok, 'R-DOM.per-element', f.fq,
+                      "to_string() validates exactly when the element's own flag is on", fail_detail=f"validated when on: {on_ok}; skipped when off: {off_ok}",
+                      key='R-DOM.per-element|to_string')
     res.extra['cfg_nodes_switched_off_by_flag'] = n_guarded
     res.floor('R-DOM.guard functions', len(funcs), 6)
     res.floor('R-DOM.guard guarded statements', n_guarded, 10)
